@@ -29,7 +29,7 @@ res "DEMO: with change exit=$DW, without change exit=$DWO"
 patch -p1 -s < "$SRC/patch.diff"
 DET=""
 for c in ${CHECKS//,/ }; do
-  o=$(VERIF_EVIDENCE_DIR=/tmp/verif-mut-evidence VERIF_REPLAY_DIR=/tmp/verif-mut-replay VERIF_REPO="$W" /verif/check "$c" quick 2>&1 | grep '^VIOLATION\|^OK\|^INCONCLUSIVE\|^KNOWN' | head -3 | cut -c1-300)
+  o=$(VERIF_EVIDENCE_DIR=/tmp/verif-mut-evidence VERIF_REPLAY_DIR=/tmp/verif-mut-replay VERIF_REPO="$W" /verif/check "$c" quick 2>&1 | grep '^VIOLATION\|^OK\|^INCONCLUSIVE' | head -3 | cut -c1-300)
   rc=$(echo "$o" | grep -c '^VIOLATION')
   res "CHECK $c quick: $o"
   DET="$DET $c:$([ "$rc" -gt 0 ] && echo detected || echo missed)"
